@@ -97,6 +97,10 @@ func (s *Service) scheduleSyncCommitteeMessages(ctx context.Context,
 		Uint64("last_slot", uint64(lastSlot)).
 		Msg("Setting sync committee duties for period")
 
+	// Obtaining the duties and accounts takes time; the slot that was in progress when we started may be over.
+	if firstSlot < s.chainTimeService.CurrentSlot() {
+		firstSlot = s.chainTimeService.CurrentSlot()
+	}
 	for slot := firstSlot; slot <= lastSlot; slot++ {
 		if slot == s.chainTimeService.CurrentSlot() && notCurrentSlot {
 			continue
